@@ -266,6 +266,36 @@ def run_c11(res, tier, seed):
 PROOF_MODULES = {"C11": ["Glas.Props.C11"]}
 
 
+def run_multi_package_determinism(res, tier, seed):
+    """the same multi-package workspace (several dependencies exporting a module of the same name) analysed in several
+    fresh processes — every process has its own hash seeds — must give the same answers: which module an import reaches is
+    a function of the inputs (the package graph and the module maps), not of the instance"""
+    import p_project
+    from p_ide import ws_lines
+    rng = random.Random(seed * 13 + 11)
+    batches, metas = p_project.gen_import_workspaces(rng, 20 if tier == "quick" else 300)
+    lines = []
+    spans = []
+    for ws, qs in batches:
+        lines += ws_lines(ws)
+        spans.append((len(lines), len(qs)))
+        lines += qs
+    nproc = 4 if tier == "quick" else 8
+    outs = common.parallel_map(lambda _: common.run_lines(common.HARNESS_BIN, lines), list(range(nproc)), workers=nproc)
+    if any(len(o) != len(lines) for o, rc in outs):
+        raise Broken("implementation harness died", "during the multi-package determinism stage")
+    res.cov["evaluations"] += nproc * sum(n for _, n in spans)
+    for (ws, qs), (a0, n), (pkgs, meta, files) in zip(batches, spans, metas):
+        for j in range(n):
+            answers = [o[a0 + j] for o, rc in outs]
+            if len(set(answers)) > 1:
+                k, q, fi = meta[j]
+                res.add_violation("C11/import-target-differs-between-instances",
+                                  f"`import {q}` in package pk{k} (dependencies {['pk%d' % d for d in pkgs[k][1]]}): {nproc} fresh analyses of the same inputs answer {sorted(set(answers))}",
+                                  {"files": files, "packages": [{"name": nm, "deps": deps, "modules": entries} for (nm, deps, entries, toml) in pkgs], "query": qs[j], "answers": answers})
+                return
+
+
 def run(prop, res, tier, seed):
     res.assumptions += ["salsa (memoisation, revisions, durability) is trusted; only the input layer (Change::apply) is modelled",
                         "queries are pure functions of the inputs they can reach: checked by comparison with fresh databases, not proved"]
@@ -274,6 +304,7 @@ def run(prop, res, tier, seed):
     except Broken as b:
         res.add_broken(b.what, b.detail)
     run_c11(res, tier, seed)
+    run_multi_package_determinism(res, tier, seed)
     if res.disagreements:
         rq, a, b = res.disagreements[0]
         res.add_broken("correspondence model-vs-implementation (M-db vs AnalysisHost::verif_inputs)",
